@@ -105,6 +105,9 @@ def parser_table(ctx, r, fname, enum_name):
     return out
 
 
+OP_APPLIERS = {"perform_op"}  # names under which the compound-assignment operator table is applied (filled by assign_tables)
+
+
 def actions(node):
     """Flat ordered emission actions of a block (not descending into nested matches on other scrutinees is the caller's job)."""
     out = []
@@ -126,9 +129,11 @@ def actions(node):
                     lab = q.show(a)
                     lab = lab.replace("Line::Label(", "").rstrip(")") if lab.startswith("Line::Label(") else lab
                     out.append(("L", lab.replace(".clone()", "")))
+            elif x["m"] in OP_APPLIERS:
+                out.append(("P", None))
             elif x["m"] in ("handle_func_call", "translate_iface_method_call_helper", "translate_func_call", "translate_lambda_call", "translate_num_method_call"):
                 out.append(("C", x["m"]))
-        elif x["k"] == "Call" and x["f"]["k"] == "Path" and (x["f"]["p"] in ("helper", "perform_op") or (isinstance(x.get("inl"), dict) and x["inl"].get("closure"))):
+        elif x["k"] == "Call" and x["f"]["k"] == "Path" and (x["f"]["p"] in ("helper",) or x["f"]["p"] in OP_APPLIERS or (isinstance(x.get("inl"), dict) and x["inl"].get("closure"))):
             names = [a["v"] for a in x["args"] if a["k"] == "Lit" and a["t"] == "str"]
             out.append(("H" if names else "P", names[0] if names else None))
         elif x["k"] == "Macro" and x["name"] in ("unreachable", "unimplemented", "panic", "todo"):
@@ -270,16 +275,40 @@ def assign_tables(ctx, r):
         return None
     per_op = {}
     forms = {}
+    # the operator table of compound assignment: a match with one arm per arithmetic AssignOperator, in a closure of
+    # translate_stmt or in a method of the translator that translate_stmt calls (whatever either is called)
+    ARITH = {"PlusEq", "MinusEq", "StarEq", "SlashEq", "ModEq"}
+
+    def op_table(body):
+        for m in q.walk(body):
+            if m["k"] != "Match":
+                continue
+            single = [a for a in m["arms"] if len([h for h in q.pat_heads(a["pat"]) if h.startswith("AssignOperator::")]) == 1 and q.last_seg(q.pat_heads(a["pat"])[0]) in ARITH]
+            if len(single) >= 4:
+                return m
+        return None
+
+    holders = []
     for cl in q.walk(f["body"]):
-        if cl["k"] == "Local" and cl.get("init") and cl["init"]["k"] == "Closure" and q.pat_bindings(cl["pat"]) == ["perform_op"]:
-            for m in q.walk(cl["init"]["body"]):
-                if m["k"] == "Match" and q.show(m["e"]) == "assign_op":
-                    for arm in m["arms"]:
-                        for h in q.pat_heads(arm["pat"]):
-                            if h.startswith("AssignOperator::"):
-                                tbl, _ = type_table(arm["body"], {"rvalue_ty"})
-                                per_op[q.last_seg(h)] = tbl if tbl is not None else {"_": actions(arm["body"])}
-                    break
+        if cl["k"] == "Local" and cl.get("init") and cl["init"]["k"] == "Closure" and cl["pat"].get("k") == "PIdent":
+            holders.append((cl["pat"]["name"], cl["init"]["body"]))
+    for c in q.walk(f["body"]):
+        if c["k"] == "MethodCall" and q.show(c["recv"]) == "self":
+            g = q.find_fn(items, c["m"], impl_ty="Translator")
+            if g is not None and g.get("body") is not None and g is not f and c["m"] not in [h[0] for h in holders]:
+                holders.append((c["m"], g["body"]))
+    for name, body in holders:
+        m = op_table(body)
+        if m is None:
+            continue
+        OP_APPLIERS.add(name)
+        tyvars = {"rvalue_ty"} | {q.show(q.strip_refs(mm["e"])).lstrip("*") for arm in m["arms"] for mm in q.walk(arm["body"]) if mm["k"] == "Match" and any("SolvedType::" in h for a2 in mm["arms"] for h in q.pat_heads(a2["pat"]))}
+        for arm in m["arms"]:
+            for h in q.pat_heads(arm["pat"]):
+                if h.startswith("AssignOperator::"):
+                    tbl, _ = type_table(arm["body"], tyvars)
+                    per_op[q.last_seg(h)] = tbl if tbl is not None else {"_": actions(arm["body"])}
+        break
     # the three left-hand-side forms of the compound branch call perform_op exactly once
     for m in q.walk(f["body"]):
         if m["k"] == "Match" and q.show(m["e"]) == "assign_op":
